@@ -22,6 +22,7 @@ META = {
     'not_decided': 'exactly-once application per index at run time; behaviour for negative nthreads (outside the documented domain)',
     'assumptions': ['nthreads >= 0; grain size >= 1 (TBB precondition)'],
 }
+META['explanation'] += ' The split point satisfies a < c < b for every range that is split (affine midpoint inequality, C17.2).'
 NATIVE = 'myth_if_native.c'
 ARG = 'myth_create_join_various_arg.'
 ARRAYS = [('ids', 'id_stride'), ('funcs', 'func_stride'), ('args', 'arg_stride'), ('results', 'result_stride')]
